@@ -380,10 +380,10 @@ def life_cases(rng, tier, with_borrowed=True):
 def box_cases(rng, tier):
     """'21 <elem> | ops' histories over a pool of CBox / CSliceBox values (harness/rt/src/m_box.rs, coq/model/Boxed.v)"""
     cases = ["21 0 | 0 5 ; 4 0 ; 5 0 0 9 ; 6 0 ; 7 1", "21 0 | 3 1 2 3 ; 4 0 ; 5 0 1 7 ; 5 0 3 8 ; 6 0 ; 6 1", "21 0 | 3 ; 4 0 ; 5 0 0 1 ; 7 0", "21 1 | 3 0 0 0 ; 6 0 ; 7 1",
-             "21 1 | 0 0 ; 8 0", "21 0 | 1 4 ; 8 0 ; 8 0", "21 2 | 2 77 ; 6 0 ; 6 1 ; 4 2", "21 3 | 3 1 70000 ; 5 0 1 5 ; 4 0", "21 1 | 3 ; 7 0", "21 0 | 3 5 ; 6 0", "21 4 | 0 5 ; 7 0", "21 4 | 1 6 ; 6 0", "21 5 | 2 7 ; 4 0", "21 5 | 3 1 2 3 ; 6 0 ; 7 1", "21 4 | 0 9 ; 8 0"]
+             "21 1 | 0 0 ; 8 0", "21 0 | 1 4 ; 8 0 ; 8 0", "21 2 | 2 77 ; 6 0 ; 6 1 ; 4 2", "21 3 | 3 1 70000 ; 5 0 1 5 ; 4 0", "21 1 | 3 ; 7 0", "21 0 | 3 5 ; 6 0", "21 4 | 0 5 ; 7 0", "21 6 | 0 5 ; 4 0 ; 6 0 ; 7 1", "21 6 | 3 1 2 3 ; 6 0", "21 6 | 1 9 ; 8 0", "21 4 | 1 6 ; 6 0", "21 5 | 2 7 ; 4 0", "21 5 | 3 1 2 3 ; 6 0 ; 7 1", "21 4 | 0 9 ; 8 0"]
     n = 400 if tier == "quick" else 8000
     for k in range(n):
-        elem = k % 6
+        elem = k % 7          # 6 = 64 bytes aligned to 64
         vmax = 0 if elem == 1 else (2 ** 24 - 1 if elem == 3 else 10 ** 6)
         val = lambda: rng.range(0, vmax)
         ops, kinds, lens = [], [], []      # kinds: B OB S OS D
